@@ -88,6 +88,9 @@ def run_harnesses(scratch, crate, modname, harnesses, jobs=8, timeout_s=240, unw
   cmd = ['cargo', 'kani', '-p', crate, '-Z', 'function-contracts', '-Z', 'stubbing', '-Z', 'unstable-options',
          '--harness-timeout', '%ds' % timeout_s, '-j', str(jobs), '--output-format', 'terse', '--exact']
   if playback:
+    # --concrete-playback is incompatible with --jobs > 1
+    cmd[cmd.index('-j') + 1] = '1'
+    jobs = 1
     cmd += ['-Z', 'concrete-playback', '--concrete-playback=print']
   for h in harnesses:
     cmd += ['--harness', '%s::%s' % (modname, h)]
